@@ -119,7 +119,13 @@ def run_mc(job, tier):
            "generated": 0, "distinct": 0}
     if m:
         res["generated"], res["distinct"] = int(m[-1][0]), int(m[-1][1])
-    if "Model checking completed. No error has been found." in out and rc == 0:
+    if job.get("expect") == "violation":
+        # calibration run: a seeded change of the transcription must be rejected inside this instance
+        res["ok"] = bool(re.search(r"Invariant \w+ is violated", out))
+        res["calibration"] = True
+        if not res["ok"]:
+            res["out_tail"] = "calibration mutant was NOT rejected: the scaled instance is blind to it\n" + out[-2000:]
+    elif "Model checking completed. No error has been found." in out and rc == 0:
         res["ok"] = True
     else:
         res["out_tail"] = out[-3000:]
@@ -373,7 +379,7 @@ def check_property(pid, tier, seed):
 
     for f in mc_futs:
         res = f.result()
-        cov["model_runs"].append({k: res[k] for k in ("module", "cfg", "generated", "distinct", "wall_s", "ok")})
+        cov["model_runs"].append({k: res[k] for k in ("module", "cfg", "generated", "distinct", "wall_s", "ok", "calibration") if k in res})
         cov["states"] += res["distinct"]
         cov["transitions"] += res["generated"]
         if not res["ok"]:
